@@ -258,9 +258,12 @@ static int ipport_to_sa(const struct ipport *a, int family, struct sockaddr *sa,
     return 0;
 }
 
+static pid_t env_owner_pid;   /* the process that runs the scenario; a fork()ed child of it only holds duplicates */
+
 void env_init(const struct env_cfg *c)
 {
     cfg = *c;
+    env_owner_pid = getpid();
 }
 
 void env_policy_set(const char *ip, enum env_policy p)
@@ -1777,7 +1780,10 @@ int __wrap_close(int fd)
                 ioctl(fd, FIONREAD, &unread);
             if (e->peer_fd >= 0 && fdt[e->peer_fd].peer_fd == fd) {
                 struct efd *p = &fdt[e->peer_fd];
-                if (unread == 0 && !e->dead) {
+                if (env_owner_pid && getpid() != env_owner_pid) {
+                    /* close() in a fork()ed child drops a duplicate: no FIN, no RST while the parent holds the
+                       connection (h_life: xcm_cleanup in a forked child) */
+                } else if (unread == 0 && !e->dead) {
                     p->peer_closed = 1;
                     /* orderly close = FIN: keep this end alive as a write-shut zombie until the peer closes
                        too.  The peer then polls EPOLLIN|EPOLLRDHUP and reads EOF, as with TCP in CLOSE_WAIT;
